@@ -2002,5 +2002,7 @@ fn if_verifiable_headers_are_same(lhs: &VerifiableHeader, rhs: &VerifiableHeader
                     .as_ref()
                     .expect("checked: is not none")
                     .as_slice()))
-        && lhs.total_difficulty() == rhs.total_difficulty()
+        // The headers are the same, so the total difficulties are the same if and only if the
+        // parent total difficulties are the same; do not add up the unchecked values of a peer.
+        && lhs.parent_chain_root().total_difficulty() == rhs.parent_chain_root().total_difficulty()
 }
